@@ -979,6 +979,19 @@ func runUnsubAll(c *core.Ctx) {
 			regPath = an.PathOf(df.Call.Args[0])
 			return
 		}
+		// one deferred clean-up closure that does it unconditionally (`defer func() { cancel(); subs.UnsubscribeAll(id) }()`)
+		if mc, isMC := df.Call.Value.(*ssa.MakeClosure); isMC {
+			if cl, isFn := mc.Fn.(*ssa.Function); isFn && len(cl.Blocks) == 1 {
+				for _, ci := range calls(cl) {
+					if inner, isCall := ci.(*ssa.Call); isCall && strings.HasSuffix(an.CalleeName(&inner.Call), "subscribers).UnsubscribeAll") {
+						d = df
+						idPath = an.PathOf(inner.Call.Args[len(inner.Call.Args)-1])
+						regPath = an.PathOf(inner.Call.Args[0])
+					}
+				}
+			}
+			return
+		}
 		// a method of the per-connection value that does nothing but that (`defer ss.unsubscribeAll()`)
 		h := an.StaticCallee(&df.Call)
 		if h == nil || !an.PrivateHelper(h) || len(h.Blocks) != 1 || len(h.Params) != len(df.Call.Args) {
